@@ -53,6 +53,41 @@ problem_t make_problem(Rng& rng, bool allow_classification, bool with_missing)
         columns         = {x1, x2, c1, d1, d2, y};
         target          = 5U;
     }
+    if (rng.coin())
+    {
+        // several multi-label features, one of them informative (not necessarily the first): feature-parallel loops over more
+        // features of a kind than pool threads, tables over label sets
+        const auto nm = rng.range(2, 4), informative = rng.range(0, nm - 1);
+        auto       yc = columns[target];
+        columns.erase(columns.begin() + static_cast<std::ptrdiff_t>(target));
+        for (int64_t m = 0; m < nm; ++m)
+        {
+            const auto classes = rng.range(2, 3);
+            auto       mc      = make_mclass_column("m" + std::to_string(m), classes, n);
+            for (int64_t s = 0; s < n; ++s)
+            {
+                for (int64_t c = 0; c < classes; ++c)
+                {
+                    mc.flat[static_cast<size_t>(s * classes + c)] = rng.coin() ? 1.0 : 0.0;
+                }
+                if (with_missing)
+                {
+                    mc.missing[static_cast<size_t>(s)] = static_cast<char>(rng.coin(1, 12));
+                }
+                if (m == informative && !p.classification)
+                {
+                    yc.flat[static_cast<size_t>(s)] += 3.0 * mc.flat[static_cast<size_t>(s * classes)] - 2.0 * mc.flat[static_cast<size_t>(s * classes + 1)];
+                }
+                else if (m == informative && mc.flat[static_cast<size_t>(s * classes)] > 0.5 && rng.coin(3, 4))
+                {
+                    yc.flat[static_cast<size_t>(s)] = 1.0;
+                }
+            }
+            columns.push_back(mc);
+        }
+        columns.push_back(yc);
+        target = columns.size() - 1U;
+    }
     p.source = std::make_unique<table_datasource_t>(n, columns, target);
     p.source->load();
     p.dataset = std::make_unique<dataset_t>(*p.source, static_cast<size_t>(rng.range(1, 4)));
